@@ -6,6 +6,7 @@ import (
 	"fmt"
 	"math/big"
 	"math/rand"
+	"os"
 	"runtime"
 	"strings"
 	"sync"
@@ -61,13 +62,13 @@ func c05Judge(canon []*fakes.SimBlock, delivered []procCall, upTo uint64, final 
 }
 
 type c05Static struct {
-	StaleCalls int   `json:"stale_log_view_calls"` // FilterLogs answers served from a sibling fork of the non-finalized suffix
-	N         int    `json:"blocks"`
-	Pattern   int    `json:"event_block_bitmask"`
-	Chunk     uint64 `json:"chunk"`
-	Finalized uint64 `json:"finalized"`
-	Finality  string `json:"block_finality"`
-	Safe      uint64 `json:"safe"`
+	StaleCalls int    `json:"stale_log_view_calls"` // FilterLogs answers served from a sibling fork of the non-finalized suffix
+	N          int    `json:"blocks"`
+	Pattern    int    `json:"event_block_bitmask"`
+	Chunk      uint64 `json:"chunk"`
+	Finalized  uint64 `json:"finalized"`
+	Finality   string `json:"block_finality"`
+	Safe       uint64 `json:"safe"`
 }
 
 func finalityOf(s string) aggkittypes.BlockNumberFinality {
@@ -429,6 +430,22 @@ func c05Dynamic(r *mon.Run, caseID string, g *rand.Rand) {
 			}
 			time.Sleep(time.Millisecond)
 		}
+		if ok && sc.StaleBurst > 0 {
+			// same rule as in the static plane: after an inconsistent-backend answer the downloader
+			// legitimately waits for the next block before it asks again. Answers of the stale burst
+			// may still be pending when growth stops, so the chain keeps growing by one empty block
+			// per pending answer (+1): a node that recovers delivers everything, one that lost a
+			// block still has lost it
+			for k := 0; k <= sc.StaleBurst; k++ {
+				hmu.Lock()
+				ch.Mine(nil)
+				hmu.Unlock()
+				w.idle.Store(0)
+				if !w.waitIdle(6, 2*time.Second) {
+					break
+				}
+			}
+		}
 		var sig, what string
 		var delivered, calls []procCall
 		canon := ch.Canonical()
@@ -468,7 +485,16 @@ func c05Dynamic(r *mon.Run, caseID string, g *rand.Rand) {
 		}
 		trace = append(trace, "calls: "+summarizeCalls(calls, 60))
 		ev := ch.Events()
-		if len(ev) > 120 {
+		if os.Getenv("VERIF_DEBUG_DIR") != "" {
+			// keep everything except the idle polling of the tip
+			var keep []string
+			for _, e := range ev {
+				if !strings.Contains(e, "HeaderByNumber(latest)") {
+					keep = append(keep, e)
+				}
+			}
+			ev = keep
+		} else if len(ev) > 120 {
 			ev = ev[len(ev)-120:]
 		}
 		scen["chain_events_tail"] = ev
